@@ -76,7 +76,7 @@ func c05R1(p *Prog, r *Report) {
 				r.OK(site, pos, fmt.Sprintf("every caller (%d) calls this function under a ctx.FieldsTarget comparison", nc))
 				return true
 			}
-			if why, ok := auditedUngatedReads[fi.Name()]; ok {
+			if why, ok := auditedUngatedReads[p.anchorFor(fi, mapKeys(auditedUngatedReads))]; ok {
 				if m := enumRootFacts(p); m != "" {
 					r.Bad(site, pos, "audited ungated read, but its sub-fact no longer holds: "+m)
 				} else {
@@ -514,62 +514,86 @@ func c05R5(p *Prog, r *Report) {
 			r.Bad("xtype.(Type).findAllFields/loops", p.PosStr(fi.Decl.Pos()), fmt.Sprintf("expected a loop over fields and one over methods, found %d", nLoops))
 		}
 	}
-	if ff := p.Func("xtype.FindField"); ff != nil {
-		info := ff.Pkg.TypesInfo
-		var sw *ast.SwitchStmt
-		ast.Inspect(ff.Decl, func(n ast.Node) bool {
-			if s, ok := n.(*ast.SwitchStmt); ok && s.Tag != nil && strings.HasPrefix(exprString(s.Tag), "len(") {
-				sw = s
+	if ff, fsf := needFunc(p, r, "xtype.FindField"); ff != nil {
+		// SSA form, independent of switch/if spelling:
+		//  * a return with a nil error returns matches[0] and is dominated by len(matches) == 1;
+		//  * a return of *NoMatchError is dominated by len(matches) == 0;
+		//  * every other return carries a non-nil error (ambiguity);
+		//  * `matches` is the exact matches unless there are none (then the case-insensitive ones).
+		lenIs := func(k int64) func(ssa.Value) bool {
+			return func(c ssa.Value) bool {
+				b, ok := c.(*ssa.BinOp)
+				if !ok || b.Op != token.EQL {
+					return false
+				}
+				kc, ok := b.Y.(*ssa.Const)
+				if !ok || kc.Value == nil || kc.Int64() != k {
+					return false
+				}
+				call, ok := b.X.(*ssa.Call)
+				if !ok {
+					return false
+				}
+				bi, ok := call.Call.Value.(*ssa.Builtin)
+				return ok && bi.Name() == "len"
 			}
-			return true
-		})
-		okSw := false
-		if sw != nil {
-			one, zero, def := false, false, false
-			for _, c := range sw.Body.List {
-				cc := c.(*ast.CaseClause)
-				if len(cc.Body) == 0 {
-					continue
-				}
-				ret, isRet := cc.Body[len(cc.Body)-1].(*ast.ReturnStmt)
-				if !isRet || len(ret.Results) != 2 {
-					continue
-				}
-				if len(cc.List) == 0 {
-					def = exprString(ret.Results[0]) == "nil" && exprString(ret.Results[1]) != "nil"
-					continue
-				}
-				v, _ := constInt(info, cc.List[0])
-				switch v {
-				case 1:
-					one = strings.HasSuffix(exprString(ret.Results[0]), "[0]") && exprString(ret.Results[1]) == "nil"
-				case 0:
-					zero = exprString(ret.Results[0]) == "nil" && strings.Contains(exprString(ret.Results[1]), "NoMatchError")
-				}
-			}
-			okSw = one && zero && def
 		}
-		// exact preferred: `matches := exactMatches; if len(matches) == 0 { matches = ignoreCaseMatches }`
-		okPref := false
-		ast.Inspect(ff.Decl, func(n ast.Node) bool {
-			ifs, ok := n.(*ast.IfStmt)
-			if !ok {
-				return true
+		bad := ""
+		nOK, nNone, nAmb := 0, 0, 0
+		for _, b := range fsf.Blocks {
+			for _, in := range b.Instrs {
+				ret, ok := in.(*ssa.Return)
+				if !ok || len(ret.Results) != 2 {
+					continue
+				}
+				switch {
+				case isNilConst(ret.Results[1]):
+					nOK++
+					if !dominatedByEdge(b, true, lenIs(1)) {
+						bad = p.PosStr(ret.Pos()) + ": a match is returned without `exactly one candidate` having been established"
+					}
+					// matches[0]
+					if ld, ok := ret.Results[0].(*ssa.UnOp); !ok {
+						bad = p.PosStr(ret.Pos()) + ": the returned match is not an element of the candidate list"
+					} else if ia, ok := ld.X.(*ssa.IndexAddr); !ok {
+						bad = p.PosStr(ret.Pos()) + ": the returned match is not an element of the candidate list"
+					} else if k, ok := ia.Index.(*ssa.Const); !ok || k.Int64() != 0 {
+						bad = p.PosStr(ret.Pos()) + ": the returned match is not candidate 0"
+					}
+				case isNoMatchErr(ret.Results[1]):
+					nNone++
+					if !dominatedByEdge(b, true, lenIs(0)) {
+						bad = p.PosStr(ret.Pos()) + ": NoMatchError is returned although candidates may exist"
+					}
+				default:
+					nAmb++
+				}
 			}
-			if strings.HasPrefix(exprString(ifs.Cond), "len(") && strings.HasSuffix(exprString(ifs.Cond), "== 0") && len(ifs.Body.List) == 1 {
-				if as, ok := ifs.Body.List[0].(*ast.AssignStmt); ok && strings.Contains(strings.ToLower(exprString(as.Rhs[0])), "ignorecase") {
+		}
+		// exact preferred: a φ [exactMatches, ignoreCaseMatches] whose second edge comes from len(exact) == 0
+		okPref := false
+		allInstrs(fsf, false, func(in ssa.Instruction) {
+			ph, ok := in.(*ssa.Phi)
+			if !ok || len(ph.Edges) != 2 || !strings.Contains(ph.Type().String(), "StructField") {
+				return
+			}
+			for i := range ph.Edges {
+				pred := ph.Block().Preds[i]
+				if dominatedByEdge(pred, true, lenIs(0)) || edgeIsTrueOf(pred, ph.Block(), lenIs(0)) {
 					okPref = true
 				}
 			}
-			return true
 		})
-		if okSw && okPref {
-			r.OK("xtype.FindField/resolution", p.PosStr(ff.Decl.Pos()), "exact matches first; 1 → match, 0 → NoMatchError, several → ambiguity error")
-		} else {
-			r.Bad("xtype.FindField/resolution", p.PosStr(ff.Decl.Pos()), "FindField no longer resolves as documented (exact > case-insensitive; one → match, none → NoMatchError, several → error)")
+		switch {
+		case bad != "":
+			r.Bad("xtype.FindField/resolution", p.PosStr(ff.Decl.Pos()), bad)
+		case nOK != 1 || nNone < 1 || nAmb < 1:
+			r.Bad("xtype.FindField/resolution", p.PosStr(ff.Decl.Pos()), fmt.Sprintf("expected one match return, a NoMatchError return and an ambiguity error return; found %d/%d/%d", nOK, nNone, nAmb))
+		case !okPref:
+			r.Bad("xtype.FindField/resolution", p.PosStr(ff.Decl.Pos()), "case-insensitive candidates are not restricted to the case `no exact candidate`: an exact-name match no longer takes precedence")
+		default:
+			r.OK("xtype.FindField/resolution", p.PosStr(ff.Decl.Pos()), "exact matches first; exactly one → match, none → NoMatchError, several → ambiguity error (SSA dominance)")
 		}
-	} else {
-		r.Unresolved("xtype.FindField")
 	}
 	if mf := p.Func("builder.mapField"); mf != nil {
 		info := mf.Pkg.TypesInfo
@@ -595,4 +619,14 @@ func c05R5(p *Prog, r *Report) {
 	} else {
 		r.Unresolved("builder.mapField")
 	}
+}
+
+func isNoMatchErr(v ssa.Value) bool {
+	mi, ok := v.(*ssa.MakeInterface)
+	return ok && isNamed(mi.X.Type(), modPath+"/xtype", "NoMatchError")
+}
+
+func edgeIsTrueOf(pred, succ *ssa.BasicBlock, is func(ssa.Value) bool) bool {
+	ifi, ok := pred.Instrs[len(pred.Instrs)-1].(*ssa.If)
+	return ok && is(ifi.Cond) && len(pred.Succs) == 2 && pred.Succs[0] == succ
 }
